@@ -4,8 +4,8 @@ s = open('/verif/DESIGN.md').read()
 rows = []
 for d in sorted(glob.glob('/verif/seeded/*-agent')):
     m = json.load(open(d + '/meta.json'))
-    rows.append((m['id'], m['property'], m['change'], m['needs_to_manifest'], m['my_check']['expected_oracle'], 'missed at first; caught after strengthening (see meta.json history)' if m.get('history') else 'caught'))
-n_missed = sum(1 for r in rows if r[5] != 'caught')
+    rows.append((m['id'], m['property'], m['change'], m['needs_to_manifest'], m['my_check']['expected_oracle'], ('missed at first; caught after strengthening (see meta.json history)' if m.get('history') else 'caught') + ('; since neutralised by a later fix (the change no longer breaks the property, see meta.json)' if m.get('neutralised_by') else '') + ('; patch rebased after a later fix touched the same lines' if m.get('rebased') else '')))
+n_missed = sum(1 for r in rows if r[5].startswith('missed'))
 out = ["### 10.1 Independently seeded changes (sub-agents: property text + scratch worktree only)", "",
        "Every change below was confirmed by me in a scratch worktree before it was kept: the pinned suite passes with it (1878 passed), the agent's demonstration fails with it and passes without it. `seeded/<id>/` holds patch.diff, demo.py, notes.md and meta.json (what I ran, first violation reported). `./selftest seeded` re-applies each patch to a copy of /repo's HEAD and expects the property's quick check to exit 1.", "",
        "%d changes over four rounds (later rounds were told which ideas were already taken): %d caught by the check as it stood, %d missed at first and caught after the check was strengthened." % (len(rows), len(rows) - n_missed, n_missed), "",
